@@ -23,7 +23,8 @@ LEVEL_TEXT = ("Generated parameter tuples (seed to 1e18, sizes 1-60, max reward 
               "force-down on/off) through gen_rnd_board and through the command-line main(); large boards for the "
               "frequency clause; every boundary pair of the eight parameter checks plus far-out, signed-zero, infinite "
               "and NaN values enumerated. Exploration with an enumerated boundary core."
-              " Added while validating sensitivity: sequences of 2-4 command-line runs in ONE directory whose parameters often map to the same file name; each run's file must equal what the same parameters write into an empty directory.")
+              " Added while validating sensitivity: sequences of 2-4 command-line runs in ONE directory whose parameters often map to the same file name; each run's file must equal what the same parameters write into an empty directory."
+              ' Later rounds: refusals repeated in a directory without inputs/, the same request in a fresh interpreter, and the file written by main() must load into the games of gen_rnd_board(seed, ..., lt, ...) under the given break probabilities (frequencies and probabilities off the whole percents included).')
 LEVEL_NOTE = ("Trusted: binomial 7-sigma + 1 bound for the loose-tile count (false-alarm probability < 1e-11 per case). The "
               "one-in-2^53 event random.random() == 0.0 (reward max+1) is not reachable by search and not claimed.")
 RULE = ("case = ('board', parameters) | ('cli', parameters) | ('refuse', parameter overrides). Non-trivial = a boundary "
